@@ -266,7 +266,7 @@ def _one(tag):
 
 
 def _poly(tag, fixed_rows=False):
-    params = [some_param(tag + f".p{j}", 0) for j in range(sym.concretize(sym.int(_fresh(tag + ".np"), 0, P(1, 2))))]
+    params = [some_param(tag + f".p{j}", 0) for j in range(sym.concretize(sym.int(_fresh(tag + ".np"), 0, 1)))]
     if fixed_rows:
         return tys.PolyFuncType(params, tys.FunctionType(_one(tag + ".i"), _one(tag + ".o"), [S("reqs")]))
     return tys.PolyFuncType(params, tys.FunctionType(atom_row(tag + ".i", 1), atom_row(tag + ".o", 1), [S("reqs")]))
@@ -279,7 +279,7 @@ def make_op(kind):
     if kind == "Case":
         return ops.Case(atom_row("i"), atom_row("o"))
     if kind == "FuncDefn":
-        return ops.FuncDefn(S("name"), atom_row("i", 1), [some_param(f"p{j}", P(0, 1)) for j in range(sym.concretize(sym.int("np", 0, 2)))], atom_row("o", 1))
+        return ops.FuncDefn(S("name"), atom_row("i", 1), [some_param(f"p{j}", 0) for j in range(sym.concretize(sym.int("np", 0, 2)))], atom_row("o", 1))
     if kind == "FuncDecl":
         return ops.FuncDecl(S("name"), _poly("sig"))
     if kind == "Const":
@@ -312,7 +312,7 @@ def make_op(kind):
         return ops.LoadFunc(sig, tys.FunctionType(atom_row("ii", 1), _one("io")), [some_arg(f"a{j}", 0) for j in range(len(sig.params))])
     if kind == "Extension":
         return ops.Custom(S("op_name"), tys.FunctionType(atom_row("i", 1), atom_row("o", 1), [S("req")]), S("description"), S("extension"),
-                          [some_arg(f"a{j}", P(0, 1)) for j in range(sym.concretize(sym.int("na", 0, P(1, 2))))])
+                          [some_arg(f"a{j}", 0) for j in range(sym.concretize(sym.int("na", 0, 1)))])
     if kind == "Tag":
         rows = [atom_row(f"v{j}", 1) for j in range(sym.concretize(sym.int("nv", 1, 3)))]
         return ops.Tag(I("tag", 0, len(rows) - 1), tys.Sum(rows))
